@@ -69,18 +69,19 @@ type simRead struct {
 type simWorld struct {
 	t0 time.Time
 
-	mu      sync.Mutex
-	writes  []simWrite
-	reads   []simRead
-	conns   []*simConn
-	dials   []time.Duration
-	events  []string // free-form timeline for failure messages
-	stLog   []simStateCall
-	fwd     map[string]bool
-	autoc   map[string]bool
-	fwdErr  error
-	stDelay time.Duration
-	stAfter time.Duration // a forwarding read returns this long after it has sampled the value
+	mu          sync.Mutex
+	writes      []simWrite
+	reads       []simRead
+	conns       []*simConn
+	dials       []time.Duration
+	events      []string // free-form timeline for failure messages
+	stLog       []simStateCall
+	fwd         map[string]bool
+	autoc       map[string]bool
+	fwdErr      error
+	stDelay     time.Duration
+	stDelayReal bool          // the delay is real time (see realSleep): used where requests are made to overlap
+	stAfter     time.Duration // a forwarding read returns this long after it has sampled the value
 
 	ifis []config.Interface
 	logs *lockedBuf
@@ -122,6 +123,42 @@ func (w *simWorld) eventf(format string, a ...any) {
 	w.mu.Unlock()
 }
 
+// realSleep makes a goroutine of a bubble wait for d of *real* time.  A sleep on the bubble's clock needs every other
+// goroutine of the bubble to be durably blocked before it ends - and one that waits for a sync.Mutex held by the
+// sleeper never is: code that serialises its scrapes with a mutex (a perfectly good implementation) would hang a
+// check whose fake State sleeps.  The wait below is on channels created outside the bubble, served by a goroutine
+// outside the bubble with a real timer: the bubble's clock simply stands still meanwhile.
+type realSleepReq struct {
+	d    time.Duration
+	done chan struct{}
+}
+
+var (
+	realSleepReqC = make(chan realSleepReq, 64)
+	realSleepPool = make(chan chan struct{}, 64)
+)
+
+func init() {
+	for i := 0; i < cap(realSleepPool); i++ {
+		realSleepPool <- make(chan struct{}, 1)
+	}
+	go func() {
+		for r := range realSleepReqC {
+			time.AfterFunc(r.d, func() { r.done <- struct{}{} })
+		}
+	}()
+}
+
+func realSleep(d time.Duration) {
+	if d <= 0 {
+		return
+	}
+	done := <-realSleepPool
+	realSleepReqC <- realSleepReq{d, done}
+	<-done
+	realSleepPool <- done
+}
+
 // simState implements system.State on the world.
 type simState struct{ w *simWorld }
 
@@ -138,9 +175,11 @@ func (s simState) IPv6Autoconf(iface string) (bool, error) {
 
 func (s simState) IPv6Forwarding(iface string) (bool, error) {
 	s.w.mu.Lock()
-	d := s.w.stDelay
+	d, real := s.w.stDelay, s.w.stDelayReal
 	s.w.mu.Unlock()
-	if d > 0 {
+	if d > 0 && real {
+		realSleep(d)
+	} else if d > 0 {
 		time.Sleep(d)
 	}
 	s.w.mu.Lock()
